@@ -66,10 +66,10 @@ Definition imode_eqb (a b : imode) : bool :=
 Definition set_mode (s : istate) (m : imode) : istate := mk_i m (i_auth s) (i_sel s) (i_tls s).
 
 (** fmt.Sscanf(sizeStr, "%d", &messageSize): blanks skipped, optional sign,
-    the longest run of [0-9_]; a run containing '_' or a value outside int64
-    is an error and leaves 0; no digits leaves 0. *)
+    the longest run of decimal digits (scanning stops at the first other byte,
+    also at '_'); a value outside int64 is an error and leaves 0; no digits
+    leaves 0. *)
 Definition is_blank (c : ascii) : bool := (Ascii.eqb c " " || Ascii.eqb c (ascii_of_nat 9))%bool.
-Definition is_dig_us (c : ascii) : bool := (is_digit c || Ascii.eqb c "_")%bool.
 Fixpoint take_while (f : ascii -> bool) (s : str) : str :=
   match s with c :: s' => if f c then c :: take_while f s' else [] | [] => [] end.
 
@@ -80,14 +80,12 @@ Definition scan_int (s : str) : Z :=
     | c :: s' => if Ascii.eqb c "-" then (true, s') else if Ascii.eqb c "+" then (false, s') else (false, s)
     | [] => (false, [])
     end in
-  let run := take_while is_dig_us d in
+  let run := take_while is_digit d in
   match run with
   | [] => 0%Z
-  | _ => if forallb is_digit run
-         then let v := digits_val run 0 in
-              if neg then (if (v <=? max_int64 + 1)%Z then (- v)%Z else 0%Z)
-              else (if (v <=? max_int64)%Z then v else 0%Z)
-         else 0%Z
+  | _ => let v := digits_val run 0 in
+         if neg then (if (v <=? max_int64 + 1)%Z then (- v)%Z else 0%Z)
+         else (if (v <=? max_int64)%Z then v else 0%Z)
   end.
 
 Definition lbrace : ascii := "{"%char.
